@@ -35,11 +35,22 @@ POOL = [
 ]
 
 
+# members whose parse can fail with something that is NOT a ConstructError (a lambda dividing by zero, a codec rejecting its input):
+# Select, Optional and GreedyRange treat any failure of an alternative/element alike (documented: "without exception")
+FOREIGN_POOL = [
+    ["struct", [["d", ["int", 1, False, "b", "alias"]], ["q", ["computed", ["bin", "//", ["const", 100], ["this", ["d"], "attr"]]]]]],
+    ["prefixed", ["int", 1, False, "b", "alias"], ["compressed", ["gbytes"], "zlib", None], False],
+    ["struct", [["d", ["int", 1, False, "b", "alias"]], [None, ["check", ["bin", ">", ["bin", "%", ["const", 7], ["this", ["d"], "attr"]], ["const", 0]]]]]],
+]
+
+
 @st.composite
-def members(draw, n_min=1, n_max=3):
+def members(draw, n_min=1, n_max=3, foreign=False):
     out = []
     for _ in range(draw(st.integers(n_min, n_max))):
-        if draw(st.integers(0, 3)) == 0:
+        if foreign and draw(st.integers(0, 3)) == 0:
+            out.append(draw(st.sampled_from(FOREIGN_POOL)))
+        elif draw(st.integers(0, 3)) == 0:
             g = V.GenCtx(V.CORE - {"gbytes", "gstr", "grange", "nullstrip"}, 1, False, ctxfree=True)
             out.append(V.gen_spec(draw, g))
         else:
@@ -288,7 +299,8 @@ def oracle_factory(ctx):
 @st.composite
 def cases(draw):
     kind = draw(st.sampled_from(["peek", "pointer", "pointer-stream", "select", "select", "optional", "grange", "grange", "grange-discard", "union"]))
-    specs = draw(members(1, 1 if kind in ("peek", "pointer", "pointer-stream", "optional", "grange", "grange-discard") else 3))
+    specs = draw(members(1, 1 if kind in ("peek", "pointer", "pointer-stream", "optional", "grange", "grange-discard") else 3,
+                         foreign=kind in ("select", "optional", "grange", "grange-discard")))
     data, start = draw(inputs(specs))
     extra = None
     if kind == "pointer-stream":
